@@ -32,6 +32,9 @@ TRUSTED = [
     "Python's list.sort is a stable sort (modelled by insertion sort, proved stable)",
 ]
 ASSUMPTIONS = [
+    "C04_history_* theorems: the modelled group rules keep no state, so a row's verdict is independent of the rows "
+    "validated before; tag resolution (HedSchema._find_tag_entry) is an input of the model, and that a schema object "
+    "does not remember earlier spellings/values is checked by the history stream on the implementation only (testing)",
     "theorems are about the group rules of group_util (placement, unique/required, Duration/Delay, duplicates); "
     "the basic-phase checks (characters, delimiters, per-tag rules, Def validation) and DefValidator.validate_onset_offset "
     "are covered by the metamorphic oracle on the implementation only (testing)",
@@ -198,10 +201,27 @@ DEFS = ["(Definition/MyDef,(Red,Blue))", "(Definition/ValDef/#,(Label/#,Green))"
         "(Definition/One,(Square))", "(Definition/Nest,(Circle,(Red,Blue),(Green,Item)))"]
 
 
+def _schema_bytes():
+    """a freshly loaded schema, pickled before it has seen any tag: every session unpickles its own object"""
+    if "bytes" not in _state:
+        import pickle
+        from hed.schema import load_schema
+        _state["bytes"] = pickle.dumps(load_schema(os.path.join(C.REPO, "hed/schema/schema_data/HED8.3.0.xml")))
+    return _state["bytes"]
+
+
+def new_session():
+    """A new schema object (and definition dictionary) without history.  Every generated case runs in its own
+    session, so what a schema object remembers from earlier annotations is part of the (replayable) case."""
+    import pickle
+    _state["schema"] = pickle.loads(_schema_bytes())
+    _state.pop("dd", None)
+    _state["seen"] = []          # every text handed to this schema object, in order
+
+
 def schema():
     if "schema" not in _state:
-        from hed.schema import load_schema
-        _state["schema"] = load_schema(os.path.join(C.REPO, "hed/schema/schema_data/HED8.3.0.xml"))
+        new_session()
     return _state["schema"]
 
 
@@ -304,7 +324,9 @@ def impl_full(s):
     """Observable of the property statement: sorted error-severity codes of HedString(s).validate()."""
     from hed.models.hed_string import HedString
     try:
-        hs = HedString(s, schema(), def_dict=defdict())
+        sch = schema()
+        _state["seen"].append(s)
+        hs = HedString(s, sch, def_dict=defdict())
         return error_codes(hs.validate())
     except RecursionError:
         return ["EXN:RecursionError"]
@@ -350,9 +372,36 @@ def impl_direct(s):
     return r
 
 
+def impl_history(case):
+    """A sequence of annotations validated one after the other with ONE schema object (like the rows of a file),
+    each also judged by a schema object without history."""
+    fresh = []
+    for st in case["steps"]:
+        new_session()
+        fresh.append(impl_full(st["base"]))
+    new_session()
+    hist = []
+    for st in case["steps"]:
+        hist.append([(y, impl_full(y)) for y in [st["base"]] + st["rewrites"]])
+    new_session()
+    return {"fresh": fresh, "hist": hist}
+
+
+SESSION_CASES = 5
+
+
 def impl_case(case):
-    """One generated case: base text, its rewrites, optional planted duplicate."""
-    out = {"base": case["base"], "full": impl_full(case["base"]),
+    """One generated case: base text, its rewrites, optional planted duplicate.  A schema object serves
+    SESSION_CASES consecutive cases; what it validated before the case is returned as the case's prefix."""
+    if case.get("stream") == "history":
+        _state["last_idx"] = None
+        return impl_history(case)
+    idx = case.get("idx", 0)
+    if idx % SESSION_CASES == 0 or _state.get("last_idx") != idx - 1 or "schema" not in _state:
+        new_session()
+    _state["last_idx"] = idx
+    prefix = list(_state["seen"])
+    out = {"prefix": prefix, "base": case["base"], "full": impl_full(case["base"]),
            "rewrites": [(y, impl_full(y)) for y in case["rewrites"]],
            "direct": impl_direct(case["base"])}
     if case.get("planted"):
@@ -473,7 +522,21 @@ TEMPORAL = ["Duration/3 s", "Delay/2 s", "Duration/500 ms", "Onset", "Offset", "
             "Def/ValDef/3", "Def/ValDef/abc", "Event-context", "Def-expand/MyDef", "Def-expand/One", "Definition/X"]
 INVALID = ["Nonsense/x", "Red/Blue", "Event/Myext", "Duration", "Label", "Duration/3 cm", "Def/Nope", "Label/a$b",
            "Def/MyDef/3", "Def-expand/Nope"]
-VOCAB = PLAIN + VALUED + TEMPORAL + INVALID
+# value / unit letter-case variants (unit symbols are case sensitive, unit names are not): the value is never
+# rewritten, so these are different annotations whose verdicts are computed per annotation
+HIST_VALUES = {
+    "Duration": ["3 s", "3 S", "3 seconds", "3 Seconds", "500 ms", "500 MS"],
+    "Delay": ["2 s", "2 S", "2 seconds", "2 SECONDS"],
+    "Frequency": ["3 Hz", "3 hz", "3 hertz", "3 HERTZ", "3 kHz", "3 KHZ"],
+    "Distance": ["3 m", "3 M", "3 metre", "3 METRE", "3 cm", "3 CM"],
+    "Label": ["abc", "ABC", "Abc"],
+    "ID": ["abc", "ABC"],
+    "Item": ["Abc", "ABC"],
+    "Red-color": ["Myext", "MYEXT"],
+    "Def": ["MyDef", "mydef", "MYDEF", "One", "ONE"],
+}
+HISTV = [n + "/" + v for n, vs in HIST_VALUES.items() for v in vs]
+VOCAB = PLAIN + VALUED + TEMPORAL + INVALID + [v for v in HISTV if v not in VALUED + TEMPORAL]
 
 
 def spellings():
@@ -523,7 +586,7 @@ def render_tag(rng, v, respell):
     return name + ext
 
 
-def render(rng, nodes, respell, blanks):
+def render(rng, nodes, respell, blanks, chooser=None):
     def sep():
         if not blanks:
             return ","
@@ -531,7 +594,7 @@ def render(rng, nodes, respell, blanks):
 
     def one(n):
         if n[0] == "T":
-            return render_tag(rng, n[1], respell)
+            return chooser(n[1]) if chooser else render_tag(rng, n[1], respell)
         lo = rng.choice(["", " "]) if blanks else ""
         lc = rng.choice(["", " "]) if blanks else ""
         return "(" + lo + body(n[1]) + lc + ")"
@@ -734,6 +797,86 @@ def gen_collide(rng):
     return {"base": base, "rewrites": rewrites, "planted": "G", "stream": "collide", "depth": depth_of(tree)}
 
 
+def gen_twin(rng):
+    """A group and a copy of it at ANOTHER depth (same members, mostly in the same written order): decisions that
+    belong to a position (top-level tag group or not, in a group or not) must not be taken by content equality."""
+    if rng.random() < 0.7:
+        x = temporal_shapes(rng)
+    else:
+        x = ["G", gen_tree(rng, rng.choice([0, 1]), "temporal")]
+    cp = copy.deepcopy(x)
+    if rng.random() < 0.25:
+        cp = ["G", shuffle_tree(rng, cp[1], 0.9)]
+    host = ["G", [["T", rng.choice(PLAIN)], cp]]
+    if rng.random() < 0.5:
+        host[1].reverse()
+    if rng.random() < 0.3:
+        host = ["G", [host, ["T", rng.choice(PLAIN)]]]
+    tree = [x, host] + [["T", rng.choice(PLAIN)] for _ in range(rng.randint(0, 2))]
+    if rng.random() < 0.3:
+        tree.append(temporal_shapes(rng))
+    rng.shuffle(tree)
+    base = render(rng, tree, respell=rng.random() < 0.3, blanks=rng.random() < 0.3)
+    rewrites = []
+    for _ in range(8):
+        ops = rng.sample(["perm", "perm", "spell", "blank"], rng.randint(1, 3))
+        t2 = shuffle_tree(rng, tree, 0.6) if "perm" in ops else tree
+        rewrites.append(render(rng, t2, respell="spell" in ops, blanks="blank" in ops))
+    return {"base": base, "rewrites": rewrites, "planted": None, "stream": "twin", "depth": depth_of(tree)}
+
+
+def gen_history(rng):
+    """A sequence of annotations for ONE schema object.  Value-taking tags recur in the same path spelling (short,
+    partial or full path; the letter case of the NAME varies) with values / units that differ in letter case only,
+    in random order; every step also has respelled / reordered / re-blanked rewrites.  Expected verdict of every
+    text = verdict of its step's annotation on a schema object without history."""
+    names = rng.sample(sorted(HIST_VALUES), rng.randint(1, 3))
+    sp = spellings()
+    pref = {}
+    for nm in names:
+        forms, _ = sp[nm + "/" + HIST_VALUES[nm][0]]
+        pref[nm] = rng.randrange(len(forms)) if forms else 0
+
+    def chooser_for(fixed):
+        def choose(v):
+            forms, extlen = sp.get(v, (None, None))
+            if forms is None:
+                return v
+            nm = v.split("/")[0]
+            if fixed and nm in pref and rng.random() < 0.8:
+                f = forms[pref[nm]]
+            else:
+                f = rng.choice(forms)
+            name, ext = (f[:len(f) - extlen], f[len(f) - extlen:]) if extlen else (f, "")
+            if rng.random() < 0.5:
+                name = rand_case(rng, name)
+            return name + ext
+        return choose
+
+    steps = []
+    for _ in range(rng.randint(4, 8)):
+        tree = []
+        for nm in rng.sample(names, rng.randint(1, len(names))):
+            v = nm + "/" + rng.choice(HIST_VALUES[nm])
+            if nm in ("Duration", "Delay"):
+                tree.append(["G", [["T", v], ["G", [["T", rng.choice(PLAIN[:5])]]]]])
+            elif rng.random() < 0.4:
+                tree.append(["G", [["T", v], ["T", rng.choice(PLAIN[:5])]]])
+            else:
+                tree.append(["T", v])
+        if rng.random() < 0.6:
+            tree.append(["T", rng.choice(PLAIN[:8])])
+        rng.shuffle(tree)
+        base = render(rng, tree, True, rng.random() < 0.3, chooser=chooser_for(True))
+        rewrites = []
+        for k in range(2):
+            t2 = shuffle_tree(rng, tree, 0.6) if rng.random() < 0.5 else tree
+            rewrites.append(render(rng, t2, True, rng.random() < 0.4, chooser=chooser_for(k == 0)))
+        steps.append({"base": base, "rewrites": rewrites})
+    return {"stream": "history", "steps": steps, "base": steps[0]["base"], "rewrites": [], "planted": None,
+            "depth": 2, "ntexts": sum(1 + len(s["rewrites"]) for s in steps)}
+
+
 MALFORMED = ["Red,,Blue", "Red,", ",Red", "(Red", "Red)", "Red (Blue)", "(Red)(Blue)", "Red~Blue", "Red,[Blue", "()",
              "(),()", "(()),(())", "((),Red),((),Red)", "Red,()", "(Red,(Blue,()))", "Red//Blue", "/Red", "Red/",
              "Red, {col}", "(Red,Blue))", "((Red,Blue)", "Red,  ,Blue", "a1:Red", "xx:Red,Red", "Label/#", "Re$d, Red",
@@ -803,6 +946,17 @@ CORPUS = [
      "rewrites": ["((Blue,(Red)),Green),(Green,((Red,Blue))),((Blue,(Red)),Green)"], "planted": "G", "stream": "collide", "depth": 3},
     {"base": "(Label/A,(Red)),(Label/A,Red),(Label/a,(Red))", "rewrites": ["(Label/A,(Red)),(Label/a,(Red)),(Label/A,Red)"],
      "planted": "G", "stream": "collide", "depth": 2},
+    # regression: a misplaced (nested) top-level tag group with a twin at the top level written in the same order
+    {"base": "(Duration/3 s, (Red)), (Blue, (Duration/3 s, (Red)))",
+     "rewrites": ["(Duration/3 s, (Red)), (Blue, ((Red), Duration/3 s))", "((Red), Duration/3 s), (Blue, (Duration/3 s, (Red)))"],
+     "planted": None, "stream": "twin", "depth": 3},
+    # regression: one schema object sees the same path spelling with values that differ in letter case only
+    {"stream": "history", "base": "(Temporal-value/Duration/3 S, (Red))", "rewrites": [], "planted": None, "depth": 2,
+     "ntexts": 7, "steps": [
+         {"base": "(Temporal-value/Duration/3 S, (Red))", "rewrites": ["(Duration/3 S, (Red))"]},
+         {"base": "Rate-of-change/Frequency/3 Hz, Blue", "rewrites": []},
+         {"base": "(Temporal-value/Duration/3 s, (Red-color/Red))", "rewrites": ["(Duration/3 s, (Red))"]},
+         {"base": "Rate-of-change/Frequency/3 hz, Blue", "rewrites": ["Frequency/3 hz, Blue"]}]},
 ]
 
 
@@ -813,19 +967,40 @@ def nontrivial(case):
     return ("(" in s or s.count(",") >= 1)
 
 
+def oracle_history(case, r, res, counts):
+    """The verdict of an annotation is a function of the annotation: whatever the schema object has seen before, it
+    must equal the verdict of a schema object without history (and so must the verdict of every rewrite)."""
+    seq = []
+    for st, fresh, hist in zip(case["steps"], r["fresh"], r["hist"]):
+        for y, cy in hist:
+            seq.append(y)
+            counts["history_texts"] += 1
+            if cy != fresh:
+                counts["history_failures"] += 1
+                res.report("verdict-depends-on-history-or-spelling",
+                           {"sequence": list(seq), "text": y, "annotation": st["base"]},
+                           f"after {len(seq) - 1} earlier annotations on the same schema object codes({y!r})={cy}; "
+                           f"codes({st['base']!r}) on a schema object without history={fresh}")
+
+
 def oracle(case, r, res, counts):
     """Implementation-side oracle: the metamorphic relation of the statement on the full validator, and the
     completeness clause for planted duplicates."""
+    if case.get("stream") == "history":
+        return oracle_history(case, r, res, counts)
     x, cx = r["base"], r["full"]
     top = r["direct"].get("top")
     if any(c.startswith("EXN:") for c in cx) and case["stream"] != "malformed":
         res.report("validate-raises", {"text": x}, str(cx))
+    seq = r.get("prefix", []) + [x]
     for y, cy in r["rewrites"]:
         counts["pairs"] += 1
+        seq.append(y)
         if cx != cy:
             fid = classify(x, y, cx, cy, top)
             counts["diff_" + str(fid)] += 1
-            res.report("rewrite-changes-error-codes", {"text": x, "rewrite": y},
+            # "sequence": everything the case's schema object validated up to and including the rewrite
+            res.report("rewrite-changes-error-codes", {"text": x, "rewrite": y, "sequence": list(seq)},
                        f"codes({x!r})={cx} codes({y!r})={cy}", fid=fid)
     if case.get("planted") and r.get("basic_ok"):
         counts["planted_checked"] += 1
@@ -917,8 +1092,16 @@ def run(tier, seed, res, model_ok=True, proof_ok=True):
     for _ in range(n * 3):
         cases.append(gen_collide(rng))
     for _ in range(n * 2):
+        cases.append(gen_twin(rng))
+    spellings()  # needed by the history generator
+    for _ in range(n // 2):
+        cases.append(gen_history(rng))
+    for _ in range(n * 2):
         cases.append(gen_malformed(rng))
     spellings()  # build before forking
+    _schema_bytes()
+    for i, c in enumerate(cases):
+        c["idx"] = i
 
     with Pool(int(C.JOBS)) as pool:
         out = pool.map(impl_case, cases, chunksize=20)
@@ -929,12 +1112,14 @@ def run(tier, seed, res, model_ok=True, proof_ok=True):
 
     dis = 0
     if model_ok:
-        dis = correspond([r["direct"] for r in out] + [d for r in out for d in r.get("direct_rw", [])], res, counts)
+        dis = correspond([r["direct"] for r in out if "direct" in r] +
+                         [d for r in out for d in r.get("direct_rw", [])], res, counts)
 
     hist = Counter(c["stream"] for c in cases)
     dhist = Counter("depth%d" % c["depth"] for c in cases)
     distinct = len({c["base"] for c in cases if nontrivial(c)})
-    evals = sum(1 + len(c["rewrites"]) for c in cases)
+    evals = sum(c.get("ntexts", 0) + len(c.get("steps", [])) if c["stream"] == "history" else 1 + len(c["rewrites"])
+                for c in cases)
     return {
         "evaluations": evals,
         "distinct_nontrivial": distinct,
@@ -943,13 +1128,18 @@ def run(tier, seed, res, model_ok=True, proof_ok=True):
                 "rewrites: sibling permutation at any level, respelling by short/partial/long path and random case of the "
                 "tag name, re-blanking) + a collision stream (two copies of a group written in different member order / "
                 "spelling among >= 3 sibling groups that share the flattened tags but differ in nesting, or differ in one "
-                "member, at depth 1-3; direct-call correspondence also on 3 rewrites each) + a malformed-text stream with "
-                "re-blanking only; non-trivial = the base has a group or at least two members",
+                "member, at depth 1-3; direct-call correspondence also on 3 rewrites each) + a twin stream (a top-level tag "
+                "group and a copy of it nested at another depth) + a history stream (4-8 annotations and their rewrites "
+                "validated one after the other with ONE schema object, value-taking tags recurring in the same path "
+                "spelling with values/units differing in letter case; each verdict compared with a schema object "
+                "without history) + a malformed-text stream with re-blanking only; a schema object serves 5 consecutive cases and what it validated before is part of a "
+                "failure's replay; non-trivial = the base has a group or at least two members",
         "samples": [cases[0]["base"], cases[len(CORPUS) + 1]["base"], cases[len(CORPUS) + 12]["rewrites"][0], cases[-1]["base"]],
         "exhaustive": False,
         "disagreements_checked": dis,
         "correspondence_cases": counts["corr"] if model_ok else 0,
         "histogram": {"streams": dict(hist), "depth": dict(dhist), "rewrite_pairs": counts["pairs"],
+                      "history_texts": counts["history_texts"], "history_failures": counts["history_failures"],
                       "planted_checked": counts["planted_checked"],
                       "metamorphic_failures_by_class": {k[5:]: v for k, v in counts.items() if k.startswith("diff_")},
                       "kinds_seen_in_direct_calls": {k[5:]: v for k, v in counts.items() if k.startswith("kind_")},
@@ -964,6 +1154,33 @@ def replay(payload):
     if x is None:
         print("no concrete input in replay:", str(payload.get("detail", ""))[:500])
         return 1
+    if "annotation" in case and "sequence" in case:
+        # history case: the sequence on one new schema object, the annotation on another one
+        new_session()
+        want = impl_full(case["annotation"])
+        new_session()
+        got = None
+        for y in case["sequence"]:
+            got = impl_full(y)
+            print("codes(%r) = %s" % (y, got))
+        print("without history: codes(%r) = %s" % (case["annotation"], want))
+        if got != want:
+            print("FAILS: verdict-depends-on-history-or-spelling")
+            return 1
+        return 0
+    new_session()
+    if "sequence" in case and "rewrite" in case:
+        # the case as it ran: base, then its rewrites up to the failing one, on one new schema object
+        got = [(y, impl_full(y)) for y in case["sequence"]]
+        first = [g for g in got if g[0] == x][-1] if any(g[0] == x for g in got) else got[0]
+        for y, cy in (first, got[-1]):
+            print("codes(%r) = %s" % (y, cy))
+        if first[1] != got[-1][1]:
+            d = impl_direct(x)
+            fid = classify(x, got[-1][0], first[1], got[-1][1], d.get("top"))
+            print("FAILS: rewrite-changes-error-codes", "(known class %s)" % fid if fid else "")
+            return 1
+        return 0
     cx = impl_full(x)
     print("codes(%r) = %s" % (x, cx))
     rc = 0
